@@ -117,6 +117,8 @@ EXTERNALS = {
     "std::convert::Into::into": M("core::convert: the blanket impl calls U::from(self) (a crate-local From impl here: moves fields)", traits=("std::convert::From",)),
     "std::array::<impl [T; N]>::as_slice": M("core::array: unsizing view of the whole array", ret_from=(0,)),
     "std::array::<impl [T; N]>::as_mut_slice": M("core::array: unsizing view of the whole array", ret_from=(0,)),
+    "std::ptr::mut_ptr::<impl *mut T>::write": M("core::ptr: bitwise write through the pointer", writes=True),
+    "std::ptr::mut_ptr::<impl *mut T>::write_unaligned": M("core::ptr: bitwise write through the pointer", writes=True),
     "std::ptr::eq": M("core::ptr: address comparison"),
     "std::ptr::addr_eq": M("core::ptr: address comparison"),
     "std::fmt::DebugMap::entry": M("core::fmt: formats key and value through their Debug impls (reads only)", user=True, traits=("std::fmt::Debug",)),
